@@ -148,22 +148,26 @@ func families() []family {
 	}
 }
 
-// family weights: work objects dominate the cost, the small types the count
-var familyWeights = []int{4, 2, 1, 6, 4, 2, 3, 2, 2, 2, 1}
+// Every case mutates one "big" tree (a work object in one of its encodings, or a peer response
+// carrying one) and two "small" ones, so that the small decoders are covered in every case.
+var bigFamilies = []string{"wo/block", "wo/block", "wo/share", "wo/petx", "quaimsg/response"}
+var smallFamilies = []string{"tx", "tx", "woheader", "woheader", "header", "auxpow", "auxtemplate", "quaimsg/request", "hash"}
 
-func drawFamily(t *rapid.T, fams []family) *family {
-	total := 0
-	for _, w := range familyWeights {
-		total += w
-	}
-	k := rapid.IntRange(0, total-1).Draw(t, "family")
-	for i, w := range familyWeights {
-		if k < w {
+func familyByName(fams []family, name string) *family {
+	for i := range fams {
+		if fams[i].name == name {
 			return &fams[i]
 		}
-		k -= w
 	}
-	return &fams[0]
+	panic("HARNESS: no family " + name)
+}
+
+// drawFamily is used by the byte-level test: any family, small ones more often.
+func drawFamily(t *rapid.T, fams []family) *family {
+	if rapid.IntRange(0, 2).Draw(t, "family_big") == 0 {
+		return familyByName(fams, bigFamilies[rapid.IntRange(0, len(bigFamilies)-1).Draw(t, "family")])
+	}
+	return familyByName(fams, smallFamilies[rapid.IntRange(0, len(smallFamilies)-1).Draw(t, "family")])
 }
 
 var stageLabel = [...]string{"rejected:wire", "rejected:decoder", "decoded"}
@@ -232,15 +236,14 @@ func TestC15A_ProtoStruct(t *testing.T) {
 	ents := pureProtoEntries()
 	fams := families()
 	defer surveyDump(t)
-	rapid.Check(t, func(rt *rapid.T) {
-		f := drawFamily(rt, fams)
+	one := func(rt *rapid.T, f *family) {
 		g := &gen.Tags{}
 		root := f.seed(rt, g)
 		o := f.opts
 		if !stats.Thorough() {
 			o.big = false
 		}
-		// the unmutated tree first: a valid object must decode (harness sanity) and not crash
+		// the unmutated tree first
 		feed(rt, "proto_struct", ents, f, root, true, true, "valid "+f.name, "valid", []string{"op:none"})
 		muts := enumerate(root, o)
 		for _, mu := range muts {
@@ -263,6 +266,12 @@ func TestC15A_ProtoStruct(t *testing.T) {
 		}
 		if stats.WantSample("proto_struct") {
 			stats.Sample("proto_struct", map[string]any{"family": f.name, "tags": g.List(), "mutations": len(muts)})
+		}
+	}
+	rapid.Check(t, func(rt *rapid.T) {
+		one(rt, familyByName(fams, bigFamilies[rapid.IntRange(0, len(bigFamilies)-1).Draw(rt, "big")]))
+		for i := 0; i < 2; i++ {
+			one(rt, familyByName(fams, smallFamilies[rapid.IntRange(0, len(smallFamilies)-1).Draw(rt, fmt.Sprintf("small%d", i))]))
 		}
 	})
 }
